@@ -95,7 +95,7 @@ class Tokenizer:
         string = ""
         line = ""
         while True:
-            tok = next(self._tokengen)
+            tok = self._next_raw()
             if tok.type == Token.ENDMARKER:  # unclosed macro call: let the parser report it
                 self._stack.append(tok)
                 self._call_macro = False
@@ -182,7 +182,13 @@ class Tokenizer:
         indent = 0
         lines = {}
         start = end = self._tokens[-1].end
-        for idx, tok in enumerate(self._tokengen):
+        idx = -1
+        while True:
+            try:
+                tok = self._next_raw()
+            except StopIteration:
+                break
+            idx += 1
             if (idx == 0) and tok.type == Token.NEWLINE:
                 continue
             elif tok.type == Token.ENDMARKER:
